@@ -12,7 +12,7 @@ package aesgcm256cfs
 // Stored format: 12-byte random nonce followed by Seal(nonce, plaintext).
 //@ func Cipher.Encrypt [C05]
 //@   modifies $g.hashin, $g.rpos
-//@   at_call Seal requires randFilled(arr($1)) && arr($0) == arr($1)
+//@   at_call Seal requires randFilled(arr($1), off($1), len($1)) && $0 == $1
 //@   ensures err == nil ==> len(encrypted) == 12 + len(data) + 16
 //@   ensures err == nil ==> sub(str(encrypted), 12, len(encrypted)) == sealS(sha3S(old(str(key))), sub(str(encrypted), 0, 12), old(str(data)))
 //@   ensures err == nil ==> isCT(arr(encrypted))
